@@ -57,6 +57,27 @@ def split_steps(txt):
     return res
 
 
+def split_plain(txt):
+    """'EInt(1,F) EList(..)' -> step texts (no tags)"""
+    out = []
+    depth = 0
+    cur = ""
+    for ch in txt:
+        if ch in "([":
+            depth += 1
+        elif ch in ")]":
+            depth -= 1
+        if ch == " " and depth == 0:
+            if cur:
+                out.append(cur)
+            cur = ""
+        else:
+            cur += ch
+    if cur:
+        out.append(cur)
+    return out
+
+
 def parse_pkt(txt):
     """'path{n|enc|dec}' -> (n, enc steps, dec steps)"""
     body = txt[txt.index("{") + 1:-1]
@@ -167,6 +188,8 @@ def run_engine(tier="quick", seed=0, langs=LANGS, use_cache=True):
             body.append('Eval vm_compute in ("<<<%s|ref>>>" ++ show_prog (ref_prog %s (mk_of %s))).' % (cid, mname, oname))
             body.append('Eval vm_compute in ("<<<%s|val>>>" ++ show_bool (paths_ok %s) ++ ";" ++ join "," (map (fun x => fst x ++ "=" ++ show_bool (snd x)) (validate_packets false %s %s)) ++ ";" ++ join "," (map (fun x => fst x ++ "=" ++ show_bool (snd x)) (validate_packets true %s %s))).'
                         % (cid, mname, mname, oname, mname, oname))
+            body.append('Eval vm_compute in ("<<<%s|denc>>>" ++ show_diffs (diff_packets false %s %s)).' % (cid, mname, oname))
+            body.append('Eval vm_compute in ("<<<%s|ddec>>>" ++ show_diffs (diff_packets true %s %s)).' % (cid, mname, oname))
     hook.close()
     # shard: one coqc per ~12 programs, in parallel
     shards = shard_body(body, 14)
@@ -191,6 +214,20 @@ def run_engine(tier="quick", seed=0, langs=LANGS, use_cache=True):
         else:
             e["paths_ok"] = False
             e["valid_enc"], e["valid_dec"] = {}, {}
+        for kind in ("enc", "dec"):
+            d = {}
+            for part in got.get(cid + "|d" + kind, "").split("%%"):
+                if "==" not in part:
+                    continue
+                path, rest = part.split("==", 1)
+                sigs = []
+                for pr in rest.split("&&"):
+                    if "~~" in pr:
+                        x, y = pr.split("~~", 1)
+                        sigs.append("%s ~ %s" % (" ".join(erase(s) for s in split_plain(x)) or "-",
+                                                 " ".join(erase(s) for s in split_plain(y)) or "-"))
+                d[path] = sorted(set(sigs))
+            e["diff_" + kind] = d
     res = {"fingerprint": fp, "tier": tier, "seed": seed, "stats": stats, "programs": programs, "cases": cases,
            "coq_errors": errors, "wall_s": t.s(), "cached": False}
     json.dump(res, open(cpath, "w"))
